@@ -140,6 +140,7 @@ theorem failed_write_keeps_old {s0 s : State} (h0 : Initial s0) (i : Nat) {fs pm
     (s'.actors i).committed = none ∧
     (∀ g, (actorStep gitFile (s'.actors i) s'.fs.lock.isSome g).2.1 ≠ .replace) ∧
     ((s'.actors i).pc = .done → fin = true → (s'.actors i).rmFailed = false →
+        (s'.actors i).fcFailed = false →
         (s'.actors i).owns = false ∧ s'.fs.lock ≠ some i) := by
   have hP := WB.of_bool gitFile_wellBehaved
   have hinv := reach_Inv hP h0 h
@@ -162,7 +163,7 @@ theorem failed_write_keeps_old {s0 s : State} (h0 : Initial s0) (i : Nat) {fs pm
     exact (reach_with hP False (fun x => x.elim) h0 i hi hr).1.committed_none_of_failed
       ((reach_Inv hP h0 hr).actors i) (hF t ht)
   have hinv' := reach_Inv hP h0 (hreach s' h')
-  refine ⟨hnone s' h', fun g heq => ?_, fun hd hfin hrm => ?_⟩
+  refine ⟨hnone s' h', fun g heq => ?_, fun hd hfin hrm hfc => ?_⟩
   · -- a rename would set `committed`, but in the successor state it is still `none`
     have h1 := hnone _ (Reach.step s' i g h')
     rw [step_actor_self] at h1
@@ -176,15 +177,17 @@ theorem failed_write_keeps_old {s0 s : State} (h0 : Initial s0) (i : Nat) {fs pm
       | start h1 _ _ _ _ => rw [h1] at hd; simp at hd
       | writing _ _ _ h1 _ _ _ _ _ _ => rw [h1] at hd; simp at hd
       | closing h1 _ _ _ _ => rcases h1 with h1 | ⟨_, _, _, h1⟩ <;> rw [h1] at hd <;> simp at hd
-      | failedRm h1 _ _ _ => rw [h1] at hd; simp at hd
+      | failedRm h1 _ _ _ => rcases h1 with h1 | h1 <;> rw [h1] at hd <;> simp at hd
       | handler _ _ _ h4 =>
-        rcases h4 with h4 | ⟨_, h4⟩
+        rcases h4 with h4 | h4 | ⟨_, h4⟩
         · rw [h4] at hd; simp at hd
-        · rcases h4 (Or.inl hC) with h5 | h5
+        · rw [h4] at hd; simp at hd
+        · rcases h4 (Or.inl hC) with h5 | h5 | h5
           · rcases hinv'.actors i with hn | hr
             · exact hn.2.1
             · rw [hr.1.owns_eq, h5]; rfl
           · rw [hrm] at h5; simp at h5
+          · rw [hfc] at h5; simp at h5
       | finished _ _ _ _ h5 =>
         rcases hinv'.actors i with hn | hr
         · exact hn.2.1
@@ -197,7 +200,8 @@ theorem failed_write_keeps_old {s0 s : State} (h0 : Initial s0) (i : Nat) {fs pm
 unlink was not made to fail) does not hold the lock. -/
 theorem with_done_releases {s0 s : State} (h0 : Initial s0) (i : Nat) {fs pm : Bool}
     {ds : List Bytes} (hi : s0.actors i = withCaller fs pm ds true) (h : Reach gitFile s0 s)
-    (hd : (s.actors i).pc = .done) (hrm : (s.actors i).rmFailed = false) :
+    (hd : (s.actors i).pc = .done) (hrm : (s.actors i).rmFailed = false)
+    (hfc : (s.actors i).fcFailed = false) :
     (s.actors i).owns = false := by
   have hP := WB.of_bool gitFile_wellBehaved
   have hinv := reach_Inv hP h0 h
@@ -208,15 +212,17 @@ theorem with_done_releases {s0 s : State} (h0 : Initial s0) (i : Nat) {fs pm : B
   | start h1 _ _ _ _ => rw [h1] at hd; simp at hd
   | writing _ _ _ h1 _ _ _ _ _ _ => rw [h1] at hd; simp at hd
   | closing h1 _ _ _ _ => rcases h1 with h1 | ⟨_, _, _, h1⟩ <;> rw [h1] at hd <;> simp at hd
-  | failedRm h1 _ _ _ => rw [h1] at hd; simp at hd
+  | failedRm h1 _ _ _ => rcases h1 with h1 | h1 <;> rw [h1] at hd <;> simp at hd
   | handler _ _ _ h4 =>
-    rcases h4 with h4 | ⟨_, h4⟩
+    rcases h4 with h4 | h4 | ⟨_, h4⟩
     · rw [h4] at hd; simp at hd
-    · rcases h4 (Or.inl hC) with h5 | h5
+    · rw [h4] at hd; simp at hd
+    · rcases h4 (Or.inl hC) with h5 | h5 | h5
       · rcases hinv.actors i with hn | hr
         · exact hn.2.1
         · rw [hr.1.owns_eq, h5]; rfl
       · rw [hrm] at h5; simp at h5
+      · rw [hfc] at h5; simp at h5
   | finished _ _ _ _ h5 =>
     rcases hinv.actors i with hn | hr
     · exact hn.2.1
@@ -225,14 +231,15 @@ theorem with_done_releases {s0 s : State} (h0 : Initial s0) (i : Nat) {fs pm : B
 /-- The repaired close(), proved before it is written: for ANY program that passes the check and
 in addition aborts on every failure inside close() (`abortsOnAnyCloseFailure`: the rename AND the
 flush/fsync/chmod before it inside `try … finally: self.abort()`), a with-caller that is done
-holds no lock — whether or not its handle was ever finalised — unless an unlink was made to fail.
-(For the program as it is now the premise is false, see
-`with_close_fault_leaves_lock_counterexample`; the premise is decidable and evaluated on
-`gitFile` by the driver, so the theorem applies by itself once the source is repaired.) -/
+holds no lock — whether or not its handle was ever finalised — unless an unlink was made to fail
+or closing the file object inside abort() raised before the unlink (`fcFailed`).  (Before 37a7ef3
+the premise was false, see `with_close_fault_leaves_lock_counterexample`; it holds for the program
+as it is now: `close_failure_releases_lock_now`.) -/
 theorem close_failure_releases_lock (P : Program) (hP : P.wellBehaved = true)
     (hA : P.abortsOnAnyCloseFailure = true) {s0 s : State} (h0 : Initial s0) (i : Nat)
     {fs pm fin : Bool} {ds : List Bytes} (hi : s0.actors i = withCaller fs pm ds fin)
-    (h : Reach P s0 s) (hd : (s.actors i).pc = .done) (hrm : (s.actors i).rmFailed = false) :
+    (h : Reach P s0 s) (hd : (s.actors i).pc = .done) (hrm : (s.actors i).rmFailed = false)
+    (hfc : (s.actors i).fcFailed = false) :
     (s.actors i).owns = false ∧ s.fs.lock ≠ some i := by
   have hW := WB.of_bool hP
   have hinv := reach_Inv hW h0 h
@@ -242,15 +249,17 @@ theorem close_failure_releases_lock (P : Program) (hP : P.wellBehaved = true)
     | start h1 _ _ _ _ => rw [h1] at hd; simp at hd
     | writing _ _ _ h1 _ _ _ _ _ _ => rw [h1] at hd; simp at hd
     | closing h1 _ _ _ _ => rcases h1 with h1 | ⟨_, _, _, h1⟩ <;> rw [h1] at hd <;> simp at hd
-    | failedRm h1 _ _ _ => rw [h1] at hd; simp at hd
+    | failedRm h1 _ _ _ => rcases h1 with h1 | h1 <;> rw [h1] at hd <;> simp at hd
     | handler _ _ _ h4 =>
-      rcases h4 with h4 | ⟨_, h4⟩
+      rcases h4 with h4 | h4 | ⟨_, h4⟩
       · rw [h4] at hd; simp at hd
-      · rcases h4 (Or.inr trivial) with h5 | h5
+      · rw [h4] at hd; simp at hd
+      · rcases h4 (Or.inr trivial) with h5 | h5 | h5
         · rcases hinv.actors i with hn | hr
           · exact hn.2.1
           · rw [hr.1.owns_eq, h5]; rfl
         · rw [hrm] at h5; simp at h5
+        · rw [hfc] at h5; simp at h5
     | finished _ _ _ _ h5 =>
       rcases hinv.actors i with hn | hr
       · exact hn.2.1
@@ -264,6 +273,33 @@ close() moved inside the try passes both checks -/
 example : let P : Program := { gitFile with closePre := gitFile.closePre.map (fun p => (p.1, true)) }
     P.wellBehaved = true ∧ P.abortsOnAnyCloseFailure = true := by decide
 
+/-- the program as it is now (since 37a7ef3) aborts on every failure inside close() -/
+theorem gitFile_abortsOnAnyCloseFailure : gitFile.abortsOnAnyCloseFailure = true := by decide
+
+/-- `close_failure_releases_lock` for the CURRENT program: a with-caller that is done holds no lock,
+finalised or not, whatever failed — unless an unlink was made to fail, or closing the file object
+inside abort() raised (`fcFailed`: the remaining finding
+F-C07-abort-file-close-error-skips-unlink, see
+`persistent_fault_abort_skips_unlink_counterexample`). -/
+theorem close_failure_releases_lock_now {s0 s : State} (h0 : Initial s0) (i : Nat)
+    {fs pm fin : Bool} {ds : List Bytes} (hi : s0.actors i = withCaller fs pm ds fin)
+    (h : Reach gitFile s0 s) (hd : (s.actors i).pc = .done)
+    (hrm : (s.actors i).rmFailed = false) (hfc : (s.actors i).fcFailed = false) :
+    (s.actors i).owns = false ∧ s.fs.lock ≠ some i :=
+  close_failure_releases_lock gitFile gitFile_wellBehaved gitFile_abortsOnAnyCloseFailure h0 i hi h
+    hd hrm hfc
+
+/-- … and for any program that in addition has `try: self._file.close() finally: <unlink>` in
+abort() (the proposed repair of that remaining finding) the `fcFailed` proviso disappears: only a
+failing unlink can keep the lock. -/
+theorem abort_close_in_try_releases_lock (P : Program) (hP : P.wellBehaved = true)
+    (hA : P.abortsOnAnyCloseFailure = true) (hT : P.abortCloseInTry = true) {s0 s : State}
+    (h0 : Initial s0) (i : Nat) {fs pm fin : Bool} {ds : List Bytes}
+    (hi : s0.actors i = withCaller fs pm ds fin) (h : Reach P s0 s)
+    (hd : (s.actors i).pc = .done) (hrm : (s.actors i).rmFailed = false) :
+    (s.actors i).owns = false ∧ s.fs.lock ≠ some i :=
+  close_failure_releases_lock P hP hA h0 i hi h hd hrm (reach_fcFailed hT h0 h i)
+
 /-! ## 4. negation witnesses (concrete schedules, evaluated by the kernel) -/
 
 def A : Bytes := [65]
@@ -276,10 +312,11 @@ def three : State :=
                      withCaller true false [C] false]
 
 /-- corpus/C07/three_actor_foreign_lock_removed*.json: actor 0 runs up to and including its rename
-(open, write, flush, fsync, rename); actor 1 opens (the lock is free); actor 0's next step; actor 2
+(open, write, flush, fsync, file close, rename); actor 1 opens (the lock is free); actor 0's next step; actor 2
 opens. -/
 def oldDefectSchedule : Sched :=
-  [(0, false), (0, false), (0, false), (0, false), (0, false), (1, false), (0, false), (2, false)]
+  [(0, false), (0, false), (0, false), (0, false), (0, false), (0, false), (1, false), (0, false),
+   (2, false)]
 
 /-- The program BEFORE commit dd7ffc5 (no `_closed = True` after the rename) violates the
 invariant on that schedule: actor 0's `finally: abort()` unlinks the lock file actor 1 created,
@@ -289,7 +326,7 @@ theorem old_program_mutex_counterexample :
     let s := run gitFileOld three oldDefectSchedule
     (s.actors 1).owns = true ∧ (s.actors 2).owns = true ∧ s.fs.lock = some 2 ∧
       -- the step that did it: actor 0 unlinking a lock file created by actor 1
-      (let s6 := run gitFileOld three (oldDefectSchedule.take 6)
+      (let s6 := run gitFileOld three (oldDefectSchedule.take 7)
        s6.fs.lock = some 1 ∧ (s6.actors 0).owns = false ∧
        (actorStep gitFileOld (s6.actors 0) s6.fs.lock.isSome false).2.1 = .remove) := by
   decide
@@ -297,7 +334,8 @@ theorem old_program_mutex_counterexample :
 /-- The old program also breaks all-or-nothing replacement: continuing that schedule, actor 1's
 rename installs the lock file of actor 2 — while actor 2 has written nothing yet — as `f`. -/
 theorem old_program_atomicity_counterexample :
-    let s := run gitFileOld three (oldDefectSchedule ++ [(1, false), (1, false), (1, false), (1, false)])
+    let s := run gitFileOld three
+      (oldDefectSchedule ++ [(1, false), (1, false), (1, false), (1, false), (1, false)])
     s.fs.target = some (.of 2) ∧ (s.actors 2).committed = none ∧ (s.actors 2).fopen = true := by
   decide
 
@@ -306,12 +344,12 @@ actor 2's open fails while actor 1 holds the lock. -/
 theorem old_schedule_harmless_now :
     let s := run gitFile three oldDefectSchedule
     (s.actors 1).owns = true ∧ (s.actors 2).owns = false ∧ s.fs.lock = some 1 ∧
-      stepOut gitFile (run gitFile three (oldDefectSchedule.take 7)) 2 false = .exists := by
+      stepOut gitFile (run gitFile three (oldDefectSchedule.take 8)) 2 false = .exists := by
   decide
 
-/-- A finding the proof forced into the open (F-C07-close-fault-before-rename-leaves-lock): with
-flush/fsync/chmod of close() BEFORE the `try … finally: self.abort()` (`gitFilePreOutsideTry`,
-which is the program as recorded — see `closePre` in Gen/Lock.lean for the current flags), a single
+/-- A finding the proof forced into the open (F-C07-close-fault-before-rename-leaves-lock, fixed by
+37a7ef3): with flush/fsync/chmod of close() BEFORE the `try … finally: self.abort()`
+(`gitFilePreOutsideTry`, the program before that commit), a single
 `with GitFile(...)` caller whose fsync fails is done — the exception has left the `with` block —
 and still holds the lock; only finalisation of the handle (`fin = true` in
 `failed_write_keeps_old`) releases it. -/
@@ -322,23 +360,64 @@ theorem with_close_fault_leaves_lock_counterexample :
       (s.actors 0).rmFailed = false := by
   decide
 
-/-- … and with those calls INSIDE the try (the proposed repair) the same run ends with the lock
-released, although the handle was never finalised. -/
-theorem with_close_fault_releases_when_pre_in_try :
-    let P : Program := { gitFile with closePre := gitFile.closePre.map (fun p => (p.1, true)) }
-    let s := run P (State.ofList true [withCaller true false [A] false])
-      [(0, false), (0, false), (0, false), (0, true), (0, false)]
-    P.wellBehaved = true ∧ (s.actors 0).pc = .done ∧ (s.actors 0).owns = false ∧ s.fs.lock = none ∧
+/-- … and the program as it is now (37a7ef3: those calls INSIDE the try) ends the same run with the
+lock released although the handle was never finalised: fsync fails, abort() closes the file object
+and unlinks. -/
+theorem with_close_fault_releases_now :
+    let s := run gitFile (State.ofList true [withCaller true false [A] false])
+      [(0, false), (0, false), (0, false), (0, true), (0, false), (0, false)]
+    (s.actors 0).pc = .done ∧ (s.actors 0).owns = false ∧ s.fs.lock = none ∧
       content s [0] = some [0] := by
   decide
 
-/-- F-C07-index-write-error-path-renames (DESIGN §7 F7): a caller whose error handler calls
-close() instead of abort() — `Index.write`'s `except: f.close(); raise` — renames a truncated file
-into place when its second write fails: `f` ends up with the first chunk only. -/
+/-- F-C07-abort-file-close-error-skips-unlink (found after 37a7ef3): abort() closes the file
+object BEFORE and OUTSIDE the try around the unlink (`gitFileAbortCloseOutsideTry`; see
+`abortCloseInTry` in Gen/Lock.lean for the current flag).  When a write error PERSISTS (disk
+full), the flush in close() fails, the `finally: self.abort()` closes the file object, whose
+implicit flush fails again, and that exception leaves abort() — and close() — before the unlink:
+the caller is done, not finalised, and still holds the lock. -/
+theorem persistent_fault_abort_skips_unlink_counterexample :
+    let s := run gitFileAbortCloseOutsideTry (State.ofList true [withCaller true false [A] false])
+      [(0, false), (0, false), (0, true), (0, true)]
+    (s.actors 0).pc = .done ∧ (s.actors 0).owns = true ∧ s.fs.lock = some 0 ∧
+      (s.actors 0).rmFailed = false ∧ (s.actors 0).fcFailed = true ∧ content s [0] = some [0] := by
+  decide
+
+/-- … and with `try: self._file.close() finally: <unlink>` in abort() (the proposed repair) the
+same fault sequence ends with the lock released. -/
+theorem persistent_fault_releases_when_abort_close_in_try :
+    let P : Program := { gitFile with abortCloseInTry := true }
+    let s := run P (State.ofList true [withCaller true false [A] false])
+      [(0, false), (0, false), (0, true), (0, true), (0, false)]
+    P.wellBehaved = true ∧ (s.actors 0).pc = .done ∧ (s.actors 0).owns = false ∧
+      s.fs.lock = none ∧ content s [0] = some [0] := by
+  decide
+
+/-- F-C07-index-write-error-path-renames (DESIGN §7 F7, fixed by 3b15974): a caller whose error
+handler calls close() instead of abort() — `Index.write`'s `except: f.close(); raise` before that
+commit — renames a truncated file into place when its second write fails: `f` ends up with the
+first chunk only. -/
 theorem index_write_counterexample :
     let s := run gitFile (State.ofList true [indexWriteCaller true false [A, B]])
-      [(0, false), (0, false), (0, true), (0, false), (0, false), (0, false)]
+      [(0, false), (0, false), (0, true), (0, false), (0, false), (0, false), (0, false)]
     (s.actors 0).pc = .done ∧ content s [0] = some A ∧ [A, B].flatten ≠ A := by
+  decide
+
+/-- `Index.write` as the source says it is NOW is a with-caller (handler `f.abort()`, for the writes
+and for the close alike), so `with_commit_complete`, `failed_write_keeps_old`,
+`close_failure_releases_lock_now` apply to it … -/
+theorem index_write_now_is_with_caller (fs pm : Bool) (ds : List Bytes) :
+    indexWriteCallerNow fs pm ds = withCaller fs pm ds true := by
+  simp [indexWriteCallerNow, withCaller, Gen.Lock.indexWriteErrCloses,
+    Gen.Lock.exitAbortsOnException, Gen.Lock.delAborts]
+
+/-- … and on the schedule of `index_write_counterexample` (second write fails) it leaves the old
+content in place and the lock released. -/
+theorem index_write_now_keeps_old :
+    let s := run gitFile (State.ofList true [indexWriteCallerNow true false [A, B]])
+      [(0, false), (0, false), (0, true), (0, false), (0, false)]
+    (s.actors 0).pc = .done ∧ content s [0] = some [0] ∧ s.fs.lock = none ∧
+      (s.actors 0).owns = false := by
   decide
 
 /-! ## 5. non-vacuity -/
